@@ -24,7 +24,8 @@ InsertAt(s, i, x) == SubSeq(s, 1, i) \o <<x>> \o SubSeq(s, i + 1, Len(s))      \
 RemoveAt(s, i) == SubSeq(s, 1, i - 1) \o SubSeq(s, i + 1, Len(s))
 Rev(s) == [i \in 1..Len(s) |-> s[Len(s) + 1 - i]]
 
-New(xs) == LET a == [a |-> "new", items |-> xs] IN IF AllGood(xs) THEN Step(a, "ok", xs, NoList) ELSE Reject(a, "TypeError")
+(* Regions(<sequence>): a list (the documented form) or a tuple - members are checked whatever the form *)
+New(xs, form) == LET a == [a |-> "new", items |-> xs, form |-> form] IN IF AllGood(xs) THEN Step(a, "ok", xs, NoList) ELSE Reject(a, "TypeError")
 AppendOp(x) == LET a == [a |-> "append", item |-> x] IN
                IF Len(src) < MaxLen /\ x \in Good THEN Step(a, "ok", Append(src, x), der)
                ELSE IF x \in Bad THEN Reject(a, "TypeError") ELSE FALSE
@@ -46,7 +47,7 @@ DerReverse == der # NoList /\ Step([a |-> "der_reverse"], "ok", src, Rev(der))
 SrcAfterDer(x) == der # NoList /\ x \in Good /\ Len(src) < MaxLen /\ Step([a |-> "append", item |-> x], "ok", Append(src, x), der)
 
 Next == /\ depth < MaxDepth
-        /\ \/ \E xs \in Seqs(Items, 2) : New(xs)
+        /\ \/ \E xs \in Seqs(Items, 2), form \in {"list", "tuple"} : New(xs, form)
            \/ \E x \in Items : AppendOp(x)
            \/ \E xs \in Seqs(Items, 2), how \in {"list", "regions"} : ExtendOp(xs, how)
            \/ \E i \in 0..Len(src), x \in Items : InsertOp(i, x)
